@@ -8,7 +8,8 @@
    against a bracket of its own clock readings.) *)
 From Coq Require Import List ZArith Bool.
 From Coq.Init Require Import Byte.
-From Sif Require Import Bytes Store Format Image Machine Inv InvSet InvAdd InvCreate Reach Determ C14Facts BackendFacts.
+From Sif Require Import Bytes Store Format Image Machine Inv InvSet InvAdd InvCreate Reach Determ C14Facts BackendFacts
+     Integrity Sign SignDeterm.
 Import ListNotations.
 Local Open Scope Z_scope.
 
@@ -72,6 +73,37 @@ Theorem C12_backend_independent :
   rb = rf /\ s_mem sb = s_mem sf /\ s_io sb = s_io sf.
 Proof. exact run_backend_independent. Qed.
 
+(* Signing is reproducible too.  `hash`, `encode_md`, `seal` and `signer_fp`
+   stand for the digest algorithms, json.Marshal of the signed metadata, the
+   envelope encoder and its key (a function: salt disabled, deterministic
+   algorithm); `det` is OptSignDeterministic and `tf` the signature time
+   given with OptSignWithTime, which the model resolves as Signer.Sign does
+   (`sign_topt`: the deterministic option wins).  With either option, or on
+   an image that is already deterministic, signing does not read the clock:
+   results, handle and every stored byte are the same whenever it runs. *)
+Theorem C12_signing_reproducible :
+  forall hash sha256 encode_md seal signer_fp s groups objects det tf clk1 clk2,
+  det = true \/ tf <> None \/ zero_times (s_mem s) ->
+  sign hash sha256 encode_md seal signer_fp s (mkSO groups objects (sign_topt det tf)) clk1 =
+  sign hash sha256 encode_md seal signer_fp s (mkSO groups objects (sign_topt det tf)) clk2.
+Proof. exact sign_reproducible. Qed.
+
+(* With the deterministic option the signature time given is not used either ... *)
+Theorem C12_deterministic_signing_ignores_the_signature_time :
+  forall hash sha256 encode_md seal signer_fp s groups objects tf1 tf2 clk1 clk2,
+  sign hash sha256 encode_md seal signer_fp s (mkSO groups objects (sign_topt true tf1)) clk1 =
+  sign hash sha256 encode_md seal signer_fp s (mkSO groups objects (sign_topt true tf2)) clk2.
+Proof. exact sign_deterministic_ignores_time. Qed.
+
+(* ... and a deterministic image stays deterministic through signing: nil ID,
+   every time field of the header and of every object - the new signature
+   objects included - the zero time. *)
+Theorem C12_signing_keeps_zero_fields :
+  forall hash sha256 encode_md seal signer_fp gss s o clk s' r,
+  (o = TDeterministic \/ o = TDefault) -> zero_times (s_mem s) ->
+  sign_all hash sha256 encode_md seal signer_fp s gss o clk = (s', r) -> zero_times (s_mem s').
+Proof. exact sign_all_keeps_zero_times. Qed.
+
 (* non-vacuity: a deterministic creation followed by default-option operations
    is clock free, and its bytes do not depend on the clock *)
 Definition sha0 (_ : list byte) : list byte := zeros 32.
@@ -96,3 +128,6 @@ Print Assumptions C12_deterministic_creation.
 Print Assumptions C12_zero_fields.
 Print Assumptions C12_explicit_where_documented.
 Print Assumptions C12_backend_independent.
+Print Assumptions C12_signing_reproducible.
+Print Assumptions C12_deterministic_signing_ignores_the_signature_time.
+Print Assumptions C12_signing_keeps_zero_fields.
